@@ -354,6 +354,8 @@ func vh_ae_log() {
 			}
 		}
 		vAssertInvLog(r, env, w, "C04.ae.inv-log")
+		nl, _ := r.getLastLog()
+		vAssert(vOr(s.high == 0, nl == s.high), "C03.ae.last-log-never-rewinds-below-store")
 		vAssert(vLogMatching(r, s, l, w), "C04.ae.lm-preserved")
 		// commit index rule
 		lastIdx := r.getLastIndex()
